@@ -99,6 +99,43 @@ func newWorld() (*world, error) {
 		w.U[d.name] = c
 		w.base.H[d.name] = c.Hash
 	}
+	// the extension's contracts: W/V have a verify(prog) method (entry contexts of
+	// the Verification trigger); W is in group G2, V in none
+	for _, d := range []struct {
+		name   string
+		groups []int
+	}{{"V", nil}, {"W", []int{1}}} {
+		c, err := compileW("W"+d.name, sender, nil)
+		if err != nil {
+			return nil, err
+		}
+		if len(d.groups) > 0 {
+			var gs []manifest.Group
+			for _, g := range d.groups {
+				gs = append(gs, manifest.Group{PublicKey: gk[g].PublicKey(), Signature: gk[g].Sign(c.Hash.BytesBE())})
+				w.group[d.name] = append(w.group[d.name], gk[g].PublicKey().StringCompressed())
+			}
+			if c, err = compileW("W"+d.name, sender, gs); err != nil {
+				return nil, err
+			}
+		}
+		tx, err := n.DeployTx(c, n.Validator, nil)
+		if err != nil {
+			return nil, fmt.Errorf("deploy %s: %w", d.name, err)
+		}
+		if _, err := n.AddBlock(tx); err != nil {
+			return nil, fmt.Errorf("deploy %s: %w", d.name, err)
+		}
+		if err := n.CheckHalt(tx.Hash()); err != nil {
+			return nil, fmt.Errorf("deploy %s: %w", d.name, err)
+		}
+		cs := n.BC.GetContractState(c.Hash)
+		if cs == nil || len(cs.Manifest.Groups) != len(d.groups) {
+			return nil, fmt.Errorf("deploy %s: contract state/groups missing", d.name)
+		}
+		w.U[d.name] = c
+		w.base.H[d.name] = c.Hash
+	}
 	w.base.H["GAS"] = nativehashes.GasToken
 	w.base.H["Z"] = util.Uint160{}
 	w.base.H["X"] = hash.Hash160([]byte("verif-c15-nobody"))
@@ -115,13 +152,22 @@ func newWorld() (*world, error) {
 // GAS.transfer(self, X, 0, program) whose onNEP17Payment callback runs the
 // program in X with GAS (a native contract) as the calling script.
 // NoRS: the last script of the chain runs without the ReadStates call flag.
+//
+// Extension (ext_ident_test.go): "S" = LoadScript of a copy of the ENTRY script,
+// "T" = LoadScript of (a copy of) one shared dynamic script, "V","W" = run() of
+// the contracts that also have verify(prog); Entry "V"/"W": the chain starts in
+// the Verification trigger with that contract's verify(prog) as the entry context.
 type chain struct {
 	Steps []string `json:"steps"`
 	NoRS  bool     `json:"no_read_states"`
+	Entry string   `json:"entry,omitempty"`
 }
 
 func (c chain) String() string {
 	s := "E"
+	if c.Entry != "" {
+		s = "verify(" + c.Entry + ")"
+	}
 	for _, x := range c.Steps {
 		s += ">" + x
 	}
@@ -134,21 +180,46 @@ func (c chain) String() string {
 // possible: a native transfer needs the full flag set in every script above
 // it, and everything below a dynamic script has read-only flags at most; GAS
 // cannot be entered without ReadStates either.
+//
+// Verification runs with read-only flags (no native transfer at all) and its
+// entry context always has ReadStates; a copy of the entry script needs an entry
+// SCRIPT; between the first and the last T only contracts may run (they get the
+// shared script's bytes from the T above them).
 func (c chain) possible() bool {
 	seenL := false
-	for _, s := range c.Steps {
-		if s == "L" {
+	firstT, lastT := -1, -1
+	for i, s := range c.Steps {
+		if s == "T" {
+			if firstT < 0 {
+				firstT = i
+			}
+			lastT = i
+		}
+	}
+	for i, s := range c.Steps {
+		if s == "L" || s == "S" || s == "T" {
 			seenL = true
 		}
-		if s[0] == 'G' && seenL {
+		if s[0] == 'G' && (seenL || c.Entry != "") {
+			return false
+		}
+		if s == "S" && c.Entry != "" {
+			return false
+		}
+		if i > firstT && i < lastT && s != "T" && !isUKind(s) {
 			return false
 		}
 	}
 	if c.NoRS && len(c.Steps) > 0 && c.Steps[len(c.Steps)-1][0] == 'G' {
 		return false
 	}
+	if c.NoRS && len(c.Steps) == 0 && c.Entry != "" {
+		return false
+	}
 	return true
 }
+
+func isUKind(k string) bool { return k == "A" || k == "B" || k == "C" || k == "V" || k == "W" }
 
 var stepAlphabet = []string{"A", "B", "C", "L", "GA", "GB", "GC"}
 
@@ -177,16 +248,23 @@ func allChains(maxLen int) []chain {
 
 // frame is one script on the invocation stack, as the MODEL sees it.
 type frame struct {
-	Kind   string // E A B C L G
+	Kind   string // E A B C V W L S T G
+	Ord    int    // S, T: which copy (1-based)
 	Hash   util.Uint160
 	Groups []string
 	Req    callflag.CallFlag // flags requested by the caller
 	Eff    callflag.CallFlag // effective flags
 }
 
-func (f *frame) isU() bool { return f.Kind == "A" || f.Kind == "B" || f.Kind == "C" }
+func (f *frame) isU() bool { return isUKind(f.Kind) }
 
-type dyn string // value computed by the script that builds the argument: "self" | "entry"
+// isDyn: a script loaded with System.Runtime.LoadScript.
+func (f *frame) isDyn() bool { return f.Kind == "L" || f.Kind == "S" || f.Kind == "T" }
+
+// value computed by the script that builds the argument: "self" | "entry" |
+// "caller" | "sscript" (bytes of the entry script) | "tscript" (bytes of the
+// shared dynamic script, only inside a T context)
+type dyn string
 
 type query struct {
 	Label string
@@ -215,9 +293,13 @@ type built struct {
 }
 
 type builder struct {
-	w   *world
-	b   *built
-	err error
+	w      *world
+	b      *built
+	err    error
+	ext    bool           // chain of the identity extension: level markers are asked first
+	sBody  map[int][]byte // ordinal -> code of that copy of the entry script
+	tBody  map[int][]byte // ordinal -> code of that copy of the shared dynamic script
+	tBytes []byte         // the shared dynamic script once assembled
 }
 
 func keyBytes(i int) []byte { return chainx.Acc(i).PublicKey().Bytes() }
@@ -227,6 +309,10 @@ func (bl *builder) queries(i int) (pre, post []query) {
 	if bl.b.Chain.NoRS && i != len(bl.b.Frames)-1 {
 		return // the levels above are checked by the variant with all flags
 	}
+	if bl.ext {
+		m := markerAccount(i)
+		pre = append(pre, query{Label: "level-marker", Val: m.BytesBE(), Ref: -1, Acc: m})
+	}
 	for s := 0; s < slots; s++ {
 		a := chainx.Acc(slotBase + s).ScriptHash()
 		pre = append(pre, query{Label: fmt.Sprintf("s%d:hash", s), Val: a.BytesBE(), Ref: -1, Acc: a})
@@ -235,6 +321,9 @@ func (bl *builder) queries(i int) (pre, post []query) {
 	ns := chainx.Acc(nonSigner).ScriptHash()
 	pre = append(pre, query{Label: fixedLabel, Val: bl.w.base.H["B"].BytesBE(), Ref: -1, Acc: bl.w.base.H["B"]})
 	pre = append(pre, query{Label: "nonsigner:hash", Val: ns.BytesBE(), Ref: -1, Acc: ns})
+	// the zero hash is what the VM reports as "calling script" of the entry context: nobody signs for it,
+	// and it is nobody's calling CONTRACT, so it is never witnessed
+	pre = append(pre, query{Label: "zero:hash", Val: make([]byte, util.Uint160Size), Ref: -1, Acc: util.Uint160{}})
 	post = append(post, query{Label: "nonsigner:key", Val: keyBytes(nonSigner), Ref: -1, Acc: ns})
 	// hashes of the scripts of the chain: the calling one, the current one, the entry
 	if i > 0 {
@@ -243,7 +332,7 @@ func (bl *builder) queries(i int) (pre, post []query) {
 		switch {
 		case c.isU() || c.Kind == "G":
 			q.Val = c.Hash.BytesBE()
-		case f.Kind == "L":
+		case f.isDyn():
 			q.Val = dyn("caller") // System.Runtime.GetCallingScriptHash inside the dynamic script
 		default:
 			q.Val = dyn("self") // evaluated by the calling script while it builds the program
@@ -269,6 +358,12 @@ func emitVal(w *io.BinWriter, v any) {
 			emit.Syscall(w, interopnames.SystemRuntimeGetEntryScriptHash)
 		case "caller":
 			emit.Syscall(w, interopnames.SystemRuntimeGetCallingScriptHash)
+		case "sscript": // the transaction's script = the entry script
+			emit.Syscall(w, interopnames.SystemRuntimeGetScriptContainer)
+			emit.Int(w, 7)
+			emit.Opcodes(w, opcode.PICKITEM)
+		case "tscript": // kept in static slot 0 by every T context
+			emit.Opcodes(w, opcode.LDSFLD0)
 		default:
 			panic("bad dyn")
 		}
@@ -293,15 +388,15 @@ func emitVal(w *io.BinWriter, v any) {
 	}
 }
 
-// body compiles frame i (and everything below it): a program ([]any) for a U
-// instance, a script ([]byte) for the entry and dynamic scripts. Expectations
-// are appended in execution order.
+// body compiles frame i (and everything below it): a program ([]any) for a
+// contract instance, a script ([]byte) for the entry and dynamic scripts.
+// Expectations are appended in execution order.
 func (bl *builder) body(i int) any {
 	b := bl.b
 	f := b.Frames[i]
-	pre, post := bl.queries(i)
 	next := i + 1
 	if f.isU() {
+		pre, post := bl.queries(i)
 		prog := []any{}
 		for _, q := range pre {
 			prog = append(prog, []any{chainx.OpCheckWitness, q.Val})
@@ -312,8 +407,9 @@ func (bl *builder) body(i int) any {
 			switch {
 			case nf.isU():
 				prog = append(prog, []any{chainx.OpRun, nf.Hash.BytesBE(), int(nf.Req), bl.body(next)})
-			case nf.Kind == "L":
-				prog = append(prog, []any{chainx.OpLoadScript, bl.body(next).([]byte), int(nf.Req), []any{}})
+			case nf.isDyn():
+				script, args := bl.dynLoad(next)
+				prog = append(prog, []any{chainx.OpLoadScript, script, int(nf.Req), args})
 			case nf.Kind == "G":
 				x := b.Frames[next+1]
 				prog = append(prog, []any{chainx.OpCall, nf.Hash.BytesBE(), "transfer", int(callflag.All),
@@ -326,6 +422,96 @@ func (bl *builder) body(i int) any {
 		}
 		return prog
 	}
+	s := bl.code(i)
+	if i == 0 && len(bl.sBody) > 0 {
+		// the entry script and its copies are ONE script
+		s = assembleTwin(s, bl.sBody, false)
+		for _, x := range b.Frames {
+			if x.Kind == "S" {
+				x.Hash = hash.Hash160(s)
+			}
+		}
+	}
+	f.Hash = hash.Hash160(s)
+	return s
+}
+
+// dynLoad compiles the dynamic script frame `next` and returns the values of
+// the script and argument parameters of the System.Runtime.LoadScript loading it.
+func (bl *builder) dynLoad(next int) (script, args any) {
+	nf := bl.b.Frames[next]
+	switch nf.Kind {
+	case "L":
+		return bl.body(next), []any{}
+	case "S":
+		bl.sBody[nf.Ord] = bl.code(next)
+		return dyn("sscript"), []any{nf.Ord}
+	case "T":
+		bl.tBody[nf.Ord] = bl.code(next)
+		if nf.Ord > 1 {
+			return dyn("tscript"), []any{dyn("tscript"), nf.Ord}
+		}
+		// the first T: all the deeper copies are compiled by now (a chain is linear)
+		bl.tBytes = assembleTwin(nil, bl.tBody, true)
+		for _, x := range bl.b.Frames {
+			if x.Kind == "T" {
+				x.Hash = hash.Hash160(bl.tBytes)
+			}
+		}
+		return bl.tBytes, []any{bl.tBytes, 1}
+	}
+	panic("dynLoad: " + nf.Kind)
+}
+
+// assembleTwin builds a polymorphic script.
+//
+//	entry twin (own=false): DEPTH JMPIF copies; <body0> RET; copies: ... ABORT
+//	    (the entry context starts with an empty stack, a copy with [k])
+//	shared dynamic script (own=true): INITSSLOT 1; STSFLD0; ... ABORT
+//	    (every copy starts with [bytes of the script, k], bytes on top)
+//	copy k: DUP PUSHk NUMEQUAL JMPIFNOT next; DROP <body k> RET
+func assembleTwin(body0 []byte, copies map[int][]byte, own bool) []byte {
+	w := io.NewBufBinWriter()
+	jmp := func(op opcode.Opcode, skip int) { // jump over `skip` bytes following the instruction
+		w.WriteB(byte(op))
+		w.WriteU32LE(uint32(int32(5 + skip)))
+	}
+	if own {
+		emit.Opcodes(w.BinWriter, opcode.INITSSLOT)
+		w.WriteB(1)
+		emit.Opcodes(w.BinWriter, opcode.STSFLD0)
+	} else {
+		emit.Opcodes(w.BinWriter, opcode.DEPTH)
+		jmp(opcode.JMPIFL, len(body0)+1)
+		w.WriteBytes(body0)
+		emit.Opcodes(w.BinWriter, opcode.RET)
+	}
+	for k := 1; k <= len(copies); k++ {
+		c, ok := copies[k]
+		if !ok {
+			panic("assembleTwin: missing copy")
+		}
+		emit.Opcodes(w.BinWriter, opcode.DUP)
+		emit.Int(w.BinWriter, int64(k))
+		emit.Opcodes(w.BinWriter, opcode.NUMEQUAL)
+		jmp(opcode.JMPIFNOTL, len(c)+2)
+		emit.Opcodes(w.BinWriter, opcode.DROP)
+		w.WriteBytes(c)
+		emit.Opcodes(w.BinWriter, opcode.RET)
+	}
+	emit.Opcodes(w.BinWriter, opcode.ABORT)
+	if w.Err != nil {
+		panic(w.Err)
+	}
+	return w.Bytes()
+}
+
+// code compiles the straight-line code of script frame i (entry script or
+// dynamic script): checks, the next step of the chain, checks.
+func (bl *builder) code(i int) []byte {
+	b := bl.b
+	pre, post := bl.queries(i)
+	next := i + 1
 	w := io.NewBufBinWriter()
 	cw := func(q query) {
 		emitVal(w.BinWriter, q.Val)
@@ -345,10 +531,11 @@ func (bl *builder) body(i int) any {
 			emit.String(w.BinWriter, "run")
 			emit.Bytes(w.BinWriter, nf.Hash.BytesBE())
 			emit.Syscall(w.BinWriter, interopnames.SystemContractCall)
-		case nf.Kind == "L":
-			emitVal(w.BinWriter, []any{})
+		case nf.isDyn():
+			script, args := bl.dynLoad(next)
+			emitVal(w.BinWriter, args)
 			emit.Int(w.BinWriter, int64(nf.Req))
-			emit.Bytes(w.BinWriter, bl.body(next).([]byte))
+			emitVal(w.BinWriter, script)
 			emit.Syscall(w.BinWriter, interopnames.SystemRuntimeLoadScript)
 		case nf.Kind == "G":
 			x := b.Frames[next+1]
@@ -366,18 +553,24 @@ func (bl *builder) body(i int) any {
 	if w.Err != nil {
 		bl.err = w.Err
 	}
-	s := w.Bytes()
-	f.Hash = hash.Hash160(s)
-	return s
+	return w.Bytes()
 }
 
 func (w *world) build(c chain) (*built, error) {
 	b := &built{Chain: c, Flags: callflag.All}
 	b.Frames = []*frame{{Kind: "E", Req: callflag.All}}
+	if c.Entry != "" {
+		// Verification trigger: the entry context is the contract's verify method, read-only
+		b.Frames = []*frame{{Kind: c.Entry, Hash: w.base.H[c.Entry], Groups: w.group[c.Entry], Req: callflag.ReadOnly}}
+	}
+	ord := map[string]int{}
 	for _, s := range c.Steps {
 		switch {
 		case s == "L":
 			b.Frames = append(b.Frames, &frame{Kind: "L", Req: callflag.All})
+		case s == "S" || s == "T":
+			ord[s]++
+			b.Frames = append(b.Frames, &frame{Kind: s, Ord: ord[s], Req: callflag.All})
 		case s[0] == 'G':
 			b.Frames = append(b.Frames, &frame{Kind: "G", Hash: w.base.H["GAS"], Req: callflag.All},
 				&frame{Kind: s[1:], Hash: w.base.H[s[1:]], Groups: w.group[s[1:]], Req: callflag.All})
@@ -392,15 +585,25 @@ func (w *world) build(c chain) (*built, error) {
 		switch {
 		case i == 0:
 			f.Eff = f.Req
-		case f.Kind == "L":
+		case f.isDyn():
 			f.Eff = b.Frames[i-1].Eff & callflag.ReadOnly & f.Req
 		default:
 			f.Eff = b.Frames[i-1].Eff & f.Req
 		}
 	}
 	b.Flags = b.Frames[0].Eff
-	bl := &builder{w: w, b: b}
-	b.Script = bl.body(0).([]byte)
+	bl := &builder{w: w, b: b, ext: c.family() != "base", sBody: map[int][]byte{}, tBody: map[int][]byte{}}
+	if c.Entry != "" {
+		// the invocation script of the witness pushes the program verify() interprets
+		iw := io.NewBufBinWriter()
+		emitVal(iw.BinWriter, bl.body(0))
+		if iw.Err != nil {
+			return nil, iw.Err
+		}
+		b.Script = iw.Bytes()
+	} else {
+		b.Script = bl.body(0).([]byte)
+	}
 	if bl.err != nil {
 		return nil, bl.err
 	}
@@ -411,7 +614,7 @@ func (w *world) build(c chain) (*built, error) {
 	b.N.H["E"] = b.Frames[0].Hash
 	b.N.H["L"] = w.base.H["X"]
 	for _, f := range b.Frames {
-		if f.Kind == "L" {
+		if f.Kind == "L" || f.Kind == "T" {
 			b.N.H["L"] = f.Hash
 			break
 		}
@@ -431,8 +634,13 @@ func (w *world) build(c chain) (*built, error) {
 			e.Desc += " called by " + b.Frames[e.Frame-1].Kind
 		}
 		e.Desc += fmt.Sprintf(" at depth %d", e.Frame)
-		e.Cls = fmt.Sprintf("vm:in=%s:depth=%d:", f.Kind, min(e.Frame, 2))
-		e.Sit = fmt.Sprintf("%s<%s@%d rs=%v q=%s", f.Kind, callerKind(b, e.Frame), min(e.Frame, 2), f.Eff.Has(callflag.ReadStates), queryKind(e.Q.Label))
+		tags := identityTags(b.Frames, e.Frame)
+		trig := ""
+		if c.Entry != "" {
+			trig = "verify:"
+		}
+		e.Cls = fmt.Sprintf("vm:%sin=%s:depth=%d%s:", trig, f.Kind, min(e.Frame, 2), tags)
+		e.Sit = fmt.Sprintf("%s%s<%s@%d%s rs=%v q=%s", trig, f.Kind, callerKind(b, e.Frame), min(e.Frame, 2), tags, f.Eff.Has(callflag.ReadStates), queryKind(e.Q.Label))
 	}
 	return b, nil
 }
@@ -456,10 +664,18 @@ var cwID = interopnames.ToID([]byte(interopnames.SystemRuntimeCheckWitness))
 // with a placeholder, so that the remaining checks of the chain are observed in
 // the same run; CheckWitness has no side effects.
 func (w *world) invoke(b *built, signers []transaction.Signer, cont bool) (trace []obs, state vmstate.State, fault string, err error) {
-	tx := transaction.New(b.Script, 0)
+	script := b.Script
+	if b.Chain.Entry != "" {
+		script = []byte{byte(opcode.RET)} // the transaction's own script is not run by the Verification trigger
+	}
+	tx := transaction.New(script, 0)
 	tx.Signers = signers
 	tx.ValidUntilBlock = w.fake.Index + 1
-	ic, err := w.n.BC.GetTestVM(trigger.Application, tx, w.fake)
+	trig := trigger.Application
+	if b.Chain.Entry != "" {
+		trig = trigger.Verification
+	}
+	ic, err := w.n.BC.GetTestVM(trig, tx, w.fake)
 	if err != nil {
 		return nil, 0, "", err
 	}
@@ -491,7 +707,14 @@ func (w *world) invoke(b *built, signers []transaction.Signer, cont bool) (trace
 		trace = append(trace, o)
 		return nil
 	}
-	ic.VM.LoadScriptWithFlags(b.Script, b.Flags)
+	if b.Chain.Entry != "" {
+		// exactly what witness verification does: the contract's verify method is the entry context
+		if err := w.n.BC.InitVerificationContext(ic, b.Frames[0].Hash, &transaction.Witness{InvocationScript: b.Script}); err != nil {
+			return nil, 0, "", err
+		}
+	} else {
+		ic.VM.LoadScriptWithFlags(b.Script, b.Flags)
+	}
 	rerr := ic.VM.Run()
 	if rerr != nil {
 		fault = rerr.Error()
